@@ -1,12 +1,14 @@
 (* C03 - the reported outcome is sound: success only if nothing raised; one exception maps to
    its outcome, inserted handlers first; failures are not masked (known finding F2 delimited).
    Only statements; every proof is `exact <lemma of Proof/C03.v>`. *)
-From TT Require Import Lib.Base Gen.Handlers Model.Run Spec.Run Spec.C03 Corr.C03 Proof.RunCore Proof.C03.
+From TT Require Import Lib.Base Gen.Handlers Model.Run Spec.Run Spec.C03 Corr.C03 Proof.RunCore
+  Proof.RunExtra Proof.RunTable Proof.RunVerdict Proof.C03.
 
 (* The full statement reads: forall i, wf i -> spec_okb i (model i) = true.  It is FALSE of the
-   faithful model (C03_no_downgrade_refuted below: "the last exception wins", finding F2).
+   faithful model (C03_refuted_F2 below: "the last exception wins", finding F2).
    Outside the class of inputs delimited by Spec.C03.finding_F2 the model meets the whole
-   statement, for every finite program and every list of inserted handlers. *)
+   statement, for every finite program (any number of statements per stage, cleanups registering
+   cleanups to any depth, any exception values, any handlers inserted before or during the run). *)
 Theorem C03_holds : forall i : input, wf i = true -> finding_F2 i = false -> spec_okb i (model i) = true.
 Proof. exact model_meets_spec. Qed.
 Print Assumptions C03_holds.
@@ -15,9 +17,25 @@ Theorem C03_statement : forall i o, spec_okb i o = true -> Spec i o.
 Proof. exact spec_okb_sound. Qed.
 Print Assumptions C03_statement.
 
+Theorem C03_Spec_holds : forall i : input, wf i = true -> finding_F2 i = false -> Spec i (model i).
+Proof. exact model_meets_Spec. Qed.
+Print Assumptions C03_Spec_holds.
+
 Theorem C03_obs_eqb : forall a b, obs_eqb a b = true <-> a = b.
 Proof. exact obs_eqb_spec. Qed.
 Print Assumptions C03_obs_eqb.
+
+(* the witness of F2: AssertionError in the test, SkipTest in a cleanup -> addSkip, wasSuccessful() *)
+Theorem C03_refuted_F2 :
+  exists i, wf i = true /\ finding_F2 i = true /\ spec_okb i (model i) = false
+            /\ model i = {| o_outs := [OSkip]; o_ok := true |}.
+Proof. exact refuted_F2. Qed.
+Print Assumptions C03_refuted_F2.
+
+(* ... and inside F2 the statement always fails: finding_F2 delimits the defect exactly *)
+Theorem C03_F2_exact : forall i, finding_F2 i = true -> spec_okb i (model i) = false.
+Proof. exact downgrade_inside_F2. Qed.
+Print Assumptions C03_F2_exact.
 
 (* success is reported exactly when nothing was raised and no failure is forced (a skip-decorated
    test reports a skip although nothing was raised, hence the hypothesis for the converse);
@@ -28,14 +46,31 @@ Theorem C03_success_iff : forall i,
 Proof. exact success_iff. Qed.
 Print Assumptions C03_success_iff.
 
-(* exactly one exception raised: the outcome is the one it stands for (Spec/Run.v outcome_of:
-   the first inserted handler, in list order, whose class it is an instance of; else skip /
-   failure / expected failure / unexpected success by class, else error) - stated without
-   reference to the implementation's handler table; holds inside F2 as well *)
+(* exactly one exception raised: the outcome is the one it stands for (Spec/Run.v outcome_of) -
+   stated without reference to the implementation's handler table; holds inside F2 as well *)
 Theorem C03_single : forall i e,
   raised (i_prog i) = [e] -> o_outs (model i) = [outcome_of (i_prog i) e].
 Proof. exact single_mapping. Qed.
 Print Assumptions C03_single.
+
+(* ... where the first inserted handler, in list order (latest insertion first, then the ones
+   present before the run), whose class the exception is an instance of decides; else
+   skip / failure / expected failure / unexpected success by (sub)class, else error *)
+Theorem C03_dispatch_order : forall p e,
+  outcome_of p e = match find (fun co => isinstance e (fst co)) (rev (inserted p) ++ p_handlers p) with
+                   | Some co => snd co
+                   | None => standard_outcome (cls_of e)
+                   end.
+Proof. exact dispatch_order. Qed.
+Print Assumptions C03_dispatch_order.
+
+(* in every run the outcome is the one of the exception reported for: the first one nobody is
+   responsible for, else the last (this is where "last one wins" is visible) *)
+Theorem C03_outcome_reported : forall i,
+  skipped (i_prog i) = false ->
+  o_outs (model i) = [match reported (i_prog i) with Some e => outcome_of (i_prog i) e | None => OSuccess end].
+Proof. exact outcome_reported. Qed.
+Print Assumptions C03_outcome_reported.
 
 Theorem C03_no_downgrade_partial : forall i e,
   finding_F2 i = false ->
@@ -43,23 +78,6 @@ Theorem C03_no_downgrade_partial : forall i e,
   exists o, model i = {| o_outs := [o]; o_ok := false |} /\ unsuccessful o = true.
 Proof. exact no_downgrade_partial. Qed.
 Print Assumptions C03_no_downgrade_partial.
-
-(* the witness of F2: AssertionError in the test, SkipTest in a cleanup -> addSkip, wasSuccessful() *)
-Definition F2_witness : input :=
-  {| i_prog := {| p_skip := None; p_xfail := false;
-                  p_setup := (1, [ACleanup 10 [ARaise (Exc CSkip (Some 1))]]); p_up_setup := true;
-                  p_body := (2, [ARaise (Exc CFail (Some 1))]);
-                  p_teardown := (3, []); p_up_teardown := true; p_handlers := [] |} |}.
-Theorem C03_no_downgrade_refuted :
-  exists i, wf i = true /\ finding_F2 i = true /\ spec_okb i (model i) = false
-            /\ model i = {| o_outs := [OSkip]; o_ok := true |}.
-Proof. exists F2_witness. vm_compute. repeat split. Qed.
-Print Assumptions C03_no_downgrade_refuted.
-
-(* ... and inside F2 the statement always fails: finding_F2 delimits the defect exactly *)
-Theorem C03_F2_exact : forall i, finding_F2 i = true -> spec_okb i (model i) = false.
-Proof. exact downgrade_inside_F2. Qed.
-Print Assumptions C03_F2_exact.
 
 (* the facts about TestCase.exception_handlers of the tree under test that the proofs use,
    re-checked against the regenerated table on every run: whatever the order of the entries,
@@ -69,18 +87,22 @@ Theorem C03_table :
   /\ (forall c, table_outcome c = Some (standard_outcome c))
   /\ match rev generated_handlers with h :: _ => cls_eqb (h_cls h) CException | [] => false end = true
   /\ forallb (fun h => subclass (h_cls h) CException) generated_handlers = true.
-Proof. exact (conj table_last_resort (conj table_outcome_spec (conj table_catch_all_last table_within_Exception))). Qed.
+Proof. exact table_facts. Qed.
 Print Assumptions C03_table.
 
 (* non-vacuity: an inserted handler for a custom class wins over the catch-all; a subclass of
-   SkipTest is a skip; an error followed by a failure stays unsuccessful *)
+   SkipTest is a skip; an error followed by a failure stays unsuccessful; a handler inserted by a
+   cleanup after the exception was caught decides *)
 Example C03_example :
   let custom := CSub CException 1 in
-  let mk body td hs := {| i_prog := {| p_skip := None; p_xfail := false; p_setup := (1, []); p_up_setup := true;
-                                       p_body := (2, body); p_teardown := (3, td); p_up_teardown := true;
-                                       p_handlers := hs |} |} in
-  model (mk [ARaise (Exc (CSub custom 2) None)] [] [(custom, OUx)]) = {| o_outs := [OUx]; o_ok := false |}
-  /\ model (mk [ARaise (Exc (CSub CSkip 0) None)] [] []) = {| o_outs := [OSkip]; o_ok := true |}
-  /\ model (mk [ARaise (Exc CValueError None)] [AAssert []] []) = {| o_outs := [OFail]; o_ok := false |}
-  /\ finding_F2 (mk [ARaise (Exc CValueError None)] [AAssert []] []) = false.
+  let mk su body td hs := {| i_prog := {| p_skip := None; p_xfail := false; p_setup := (1, su); p_up_setup := true;
+                                          p_body := (2, body); p_teardown := (3, td); p_up_teardown := true;
+                                          p_handlers := hs |} |} in
+  model (mk [] [ARaise (Exc (CSub custom 2) None)] [] [(custom, OUx)]) = {| o_outs := [OUx]; o_ok := false |}
+  /\ model (mk [] [ARaise (Exc (CSub CSkip 0) None)] [] []) = {| o_outs := [OSkip]; o_ok := true |}
+  /\ model (mk [] [ARaise (Exc CValueError None)] [AAssert []] []) = {| o_outs := [OFail]; o_ok := false |}
+  /\ wf (mk [] [ARaise (Exc CValueError None)] [AAssert []] []) = true
+  /\ finding_F2 (mk [] [ARaise (Exc CValueError None)] [AAssert []] []) = false
+  /\ model (mk [ACleanup 10 [AInsertHandler CValueError OXFail]] [ARaise (Exc CValueError None)] [] [])
+     = {| o_outs := [OXFail]; o_ok := true |}.
 Proof. vm_compute. repeat split. Qed.
